@@ -72,6 +72,15 @@ def ctx_wrap(kind: str, body: bytes) -> bytes:
 def judge_nop(ctx, code, cc, depth, kind):
     functions = env.mods()[0]
     items = [bytes([(i * 7 + 1) & 0xff, i & 0xff]) for i in range(depth)]
+    # item LENGTHS vary too (empty, one byte, long): a count is a number of
+    # items, whatever they hold
+    shape = (code + cc + depth) % 4
+    if shape == 1:
+        items = [b'' for _ in items]
+    elif shape == 2:
+        items = [x[:(i + code) % 3] for i, x in enumerate(items)]
+    elif shape == 3:
+        items = [x * (1 + 5 * (i % 2)) for i, x in enumerate(items)]
     pushes = b''.join(isa.push1(x) for x in items)
     marker = isa.push1(b'\xee\xee')
     body = bytes([code, cc]) + marker
@@ -219,7 +228,9 @@ def gen_fork_script(rng, code):
     items = []
     for _ in range(depth):
         r = rng.random()
-        if r < 0.35:
+        if r < 0.12:
+            items.append(b'')
+        elif r < 0.35:
             items.append(b'\x01')
         elif r < 0.5:
             items.append(b'\x00')
